@@ -148,7 +148,13 @@ func (e *Engine) loadContractFile(path string, pkg *types.Package) error {
 				}
 				return nil
 			}
-			return fmt.Errorf("%s:%d: duplicate contract for %s", path, c.lineNo, c.Key)
+			if old.Trusted != c.Trusted {
+				return fmt.Errorf("%s:%d: duplicate contract for %s (one trusted without property scope)", path, c.lineNo, c.Key)
+			}
+			// two contracts for the same function (from different property files) are
+			// conjoined: the function must meet both, callers may rely on both.
+			mergeContracts(old, c)
+			return nil
 		}
 		e.contracts[c.Key] = c
 		e.contractOrder = append(e.contractOrder, c.Key)
@@ -639,4 +645,76 @@ func splitTop(s string, sep byte) []string {
 	}
 	out = append(out, strings.TrimSpace(s[start:]))
 	return out
+}
+
+// mergeContracts folds contract c into old (conjunction of contracts).
+func mergeContracts(old, c *Contract) {
+	old.Header += " +merged(" + filepath.Base(c.File) + ")"
+	old.Requires = append(old.Requires, c.Requires...)
+	old.Ensures = append(old.Ensures, c.Ensures...)
+	old.Defines = append(old.Defines, c.Defines...)
+	old.AtSend = append(old.AtSend, c.AtSend...)
+	old.AtCall = append(old.AtCall, c.AtCall...)
+	old.Consumes = append(old.Consumes, c.Consumes...)
+	old.Produces = append(old.Produces, c.Produces...)
+	for k, v := range c.LoopInv {
+		old.LoopInv[k] = append(old.LoopInv[k], v...)
+	}
+	for k, v := range c.LoopStep {
+		old.LoopStep[k] = append(old.LoopStep[k], v...)
+	}
+	for _, p := range c.Props {
+		dup := false
+		for _, q := range old.Props {
+			if p == q {
+				dup = true
+			}
+		}
+		if !dup {
+			old.Props = append(old.Props, p)
+		}
+	}
+	for k := range c.Nilable {
+		if old.Nilable == nil {
+			old.Nilable = map[string]bool{}
+		}
+		if !old.Nilable[k] {
+			// a parameter is nilable only if both contracts allow it: keep old's view
+			_ = k
+		}
+	}
+	// frames: anything either contract allows to change may change
+	switch {
+	case !c.HasMod:
+		// c declares "modifies nothing" implicitly only if it has ensures/requires; keep old's frame
+	case !old.HasMod:
+		old.HasMod, old.ModAll, old.ModAllBut, old.Modifies = c.HasMod, c.ModAll, c.ModAllBut, c.Modifies
+	case old.ModAll && c.ModAll:
+		if len(old.ModAllBut) > 0 && len(c.ModAllBut) > 0 {
+			// keep only what both keep
+			var keep []string
+			for _, a := range old.ModAllBut {
+				for _, b := range c.ModAllBut {
+					if strings.TrimSpace(a) == strings.TrimSpace(b) {
+						keep = append(keep, a)
+					}
+				}
+			}
+			old.ModAllBut = keep
+		} else {
+			old.ModAllBut = nil
+		}
+	case old.ModAll || c.ModAll:
+		if c.ModAll {
+			old.ModAll, old.ModAllBut, old.Modifies = true, c.ModAllBut, nil
+		}
+		// explicit targets of the other contract may not be in the keep list: be conservative
+		old.ModAllBut = nil
+	default:
+		old.Modifies = append(old.Modifies, c.Modifies...)
+	}
+	old.Pure = old.Pure || c.Pure
+	old.NoSafety = old.NoSafety || c.NoSafety
+	old.MayPanic = old.MayPanic || c.MayPanic
+	old.Inline = false
 }
